@@ -11,12 +11,12 @@ use crate::shapes::{self, ShapeSpec};
 use crate::simfs::SimFs;
 use crate::{dbutil, watch};
 
-const SHAPES_QUICK: u64 = 48;
+const SHAPES_QUICK: u64 = 128;
 const SHAPES_THOROUGH: u64 = 500;
 
 pub fn plan(tier: &str) -> u64 {
     match tier {
-        "quick" => SHAPES_QUICK + 32,
+        "quick" => SHAPES_QUICK + 64,
         _ => SHAPES_THOROUGH + 300,
     }
 }
